@@ -797,7 +797,7 @@ class PreferredUnits(metaclass=PreferredUnitsMeta):  # pylint: disable=too-many-
         """set preferred units from Mapping"""
         for attribute, value in kwargs.items():
 
-            if hasattr(PreferredUnits, attribute):
+            if attribute in getattr(PreferredUnits, '__dataclass_fields__'):
                 if isinstance(value, Unit):
                     setattr(PreferredUnits, attribute, value)
                 elif isinstance(value, str):
@@ -831,7 +831,7 @@ def _parse_unit(input_: str) -> Optional[Unit]:
     input_ = input_.strip().lower()
     if not isinstance(input_, str):
         raise TypeError(f"type str expected for 'input_', got {type(input_)}")
-    if hasattr(PreferredUnits, input_):
+    if input_ in getattr(PreferredUnits, '__dataclass_fields__'):
         return getattr(PreferredUnits, input_)
     for unit in Unit:
         if unit.name.lower() == input_:
